@@ -28,7 +28,7 @@ import (
 // another user) and users whose credit is exhausted, who expired or were deleted are cut off.
 
 type c16Op struct {
-	K    string  `json:"k"` // session traffic collect commit upload closesession proxyfail topup exhaust expire delete
+	K    string  `json:"k"` // session halfopen traffic collect commit upload closesession proxyfail topup exhaust expire delete
 	U    int     `json:"u,omitempty"`
 	I    int     `json:"i,omitempty"` // client session index
 	N    int     `json:"n,omitempty"` // bytes / number of connections
@@ -211,6 +211,7 @@ func c16Inner(sc c16Scenario) (vk.Result, error) {
 		models[i] = &c16Model{}
 	}
 	var seshs []*c16Sesh
+	nHalf := 0
 	defer func() {
 		for _, s := range seshs {
 			go s.sesh.Close()
@@ -334,6 +335,33 @@ func c16Inner(sc c16Scenario) (vk.Result, error) {
 			}
 			s := client.MakeSession(remote, auth, &vk.Dialer{Net: cnet, Ln: srv.cliLn})
 			seshs = append(seshs, &c16Sesh{u: u, sesh: s, links: cnet.All()})
+		case "halfopen":
+			// a connection attempt of user u for a new session id is cut between its first packet and the server's
+			// reply: the server has registered a session that has no connection (it stays around until its inactivity
+			// timer fires); everything that applies to the user's sessions applies with it around
+			u := op.U % sc.Users
+			if models[u].deleted {
+				return false, nil
+			}
+			up, down, ok := store.credits(c15UID(u))
+			if !ok || up <= 0 || down <= 0 || models[u].expired {
+				return false, nil
+			}
+			cfg := vClientCfg{UID: base64.StdEncoding.EncodeToString(c15UID(u)), Method: "shadowsocks", Enc: "plain", NumConn: 1, Browser: "firefox", Transport: "direct", ServerName: "www.example.com"}
+			_, remote, auth, err := vMustProcess(cfg, srv.pub, time.Now)
+			if err != nil {
+				return false, fmt.Errorf("harness: %v", err)
+			}
+			nHalf++
+			auth.SessionId = uint32(500000 + nHalf)
+			hnet := &vk.Net{Auto: true}
+			hnet.OnLink = func(l *vk.Link) { l.BreakWrites(vk.BtoA) }
+			conn, _ := (&vk.Dialer{Net: hnet, Ln: srv.cliLn}).Dial("tcp", "x")
+			tr := remote.Transport.CreateTransport()
+			go tr.Handshake(conn, auth)
+			synctest.Wait()
+			conn.Close()
+			synctest.Wait()
 		case "traffic":
 			if len(seshs) == 0 {
 				return false, nil
@@ -544,6 +572,8 @@ func c16Gen(rt *rapid.T) c16Scenario {
 		case k < 80:
 			// two rounds at once, as regularQueueUpload may do
 			sc.Ops = append(sc.Ops, c16Op{K: "collect", Par: []c16Op{{K: "commit"}, {K: "collect"}, {K: "commit"}}})
+		case k == 80 || k == 81:
+			sc.Ops = append(sc.Ops, c16Op{K: "halfopen", U: rapid.IntRange(0, sc.Users-1).Draw(rt, "hu")})
 		case k < 83:
 			sc.Ops = append(sc.Ops, c16Op{K: "closesession", I: rapid.IntRange(0, nsesh-1).Draw(rt, "ci")})
 		case k < 86:
